@@ -18,7 +18,8 @@ class Ctx:
 
     def dump(self):
         return {"kind": self.kind,
-                "units": {s: [u["cls"], None if u["scale"] is None else rat(u["scale"])]
+                "units": {s: [u["cls"], None if u["scale"] is None else rat(u["scale"])] +
+                          ([rat(u["quantum"])] if u.get("quantum") is not None else [])
                           for s, u in self.units.items()},
                 "classes": {c: dict(dim=v["dim"], ref=v["ref"], parent=v.get("parent"),
                                     quantum=None if v["quantum"] is None else rat(v["quantum"]))
@@ -26,8 +27,9 @@ class Ctx:
 
     @staticmethod
     def load(d, setup):
-        units = {s: dict(cls=c, scale=None if k is None else parse_rat(k))
-                 for s, (c, k) in d["units"].items()}
+        units = {s: dict(cls=v[0], scale=None if v[1] is None else parse_rat(v[1]),
+                         quantum=parse_rat(v[2]) if len(v) > 2 else None)
+                 for s, v in d["units"].items()}
         classes = {c: dict(dim=v["dim"], ref=v["ref"], parent=v.get("parent"),
                            quantum=None if v["quantum"] is None else parse_rat(v["quantum"]))
                    for c, v in d["classes"].items()}
@@ -35,6 +37,8 @@ class Ctx:
 
     def quantum(self, u):
         ui = self.units[u]
+        if ui.get("quantum") is not None:       # a currency: its own smallest fraction
+            return ui["quantum"]
         q = self.classes[ui["cls"]]["quantum"]
         if q is None or ui["scale"] is None:
             return None
